@@ -36,6 +36,8 @@ type JobOpts struct {
 	Race bool `json:"race"`
 	// LingerMs: pause before every scripted step (0: every third run pauses 6 ms; -1: never)
 	LingerMs int `json:"linger_ms"`
+	// EarlyWait: every second run waits for completion the moment StartAll has returned
+	EarlyWait bool `json:"early_wait"`
 }
 
 type Job struct {
@@ -69,6 +71,7 @@ type RunLog struct {
 
 func (o JobOpts) driveOptsFor(run int) drive.Options {
 	d := o.driveOpts()
+	d.EarlyWait = o.EarlyWait && run%2 == 0
 	switch {
 	case o.LingerMs > 0:
 		d.Linger = time.Duration(o.LingerMs) * time.Millisecond
